@@ -4,6 +4,7 @@ import Genshi.Model.Exec
 import Genshi.Model.ExecGraph
 import Genshi.Model.ExecParse
 import Genshi.Model.ExecShape
+import Genshi.Model.ExecMemo
 namespace Driver.C14
 open Genshi Genshi.Exec Genshi.Sexp
 
@@ -223,6 +224,21 @@ def handle : List Sexp → Option Sexp
       if fin.2.2 then pure (.atom "unmodelled") else
       pure (.list [.list fin.2.1, natsOut fin.1.sentinel,
         .list (fin.1.cache.map fun e => .list [ofNat e.1.1, ofBool e.1.2])])
+  | [.atom "memohist", cap, flag, ar, .list files, .list history] => do
+      let cap ← cap.toNat?; let flag ← flag.toBool?; let ar ← ar.toBool?
+      let fs ← files.mapM file?
+      let history ← history.mapM fun
+        | .list [n, c] => do let n ← n.toNat?; let c ← cls? c; pure (n, c)
+        | _ => none
+      let fuel := fs.length + 3
+      let step := fun (acc : MSt × List Sexp × Bool) (nc : Nat × Cls) =>
+        let r := histStepM cap fuel fuel fs acc.1 nc.1 nc.2
+        ({ r.1 with out := [] }, acc.2.1 ++ [.list [errOut r.2, natsOut (if r.2.isNone then r.1.out else [])]],
+          acc.2.2 || r.2 == some .unmodelled)
+      let fin := history.foldl step (mst0 flag ar, [], false)
+      if fin.2.2 then pure (.atom "unmodelled") else
+      pure (.list [.list fin.2.1, natsOut fin.1.sentinel,
+        .list (fin.1.cache.map fun e => .list [ofNat e.1.1, ofBool e.1.2, ofBool e.2.prep.isSome])])
   | [.atom "reach", t, l, o, ar, root, .list chain] => do
       let cfg ← cfg? t l o ar
       let root ← root? root
